@@ -208,7 +208,8 @@ def run_project(slots, backend, ninja=None):
         src, targets = write_project(root, slots, backend)
         bld = os.path.join(root, 'build')
         log = os.path.join(root, 'log')
-        env = tool_env({'CC': os.path.join(BIN, 'stubcc'),
+        nlog = os.path.join(root, 'nlog')
+        env = tool_env({'VERIF_NINJA_LOG': nlog, 'CC': os.path.join(BIN, 'stubcc'),
                         'CXX': os.path.join(BIN, 'stubcxx'),
                         'AR': os.path.join(BIN, 'stubar'),
                         'VERIF_LOG': log})
@@ -242,11 +243,31 @@ def run_project(slots, backend, ninja=None):
             elif r['kind'] in ('cc', 'cxx'):
                 (compiles if '-c' in a else links).append(r)
         events = {}
+        njtext, njcmd = {}, {}
+        if backend == 'ninja':
+            ids = {s.id for s in slots if s.pos in ('cmd_arg', 'cmd_env',
+                                                    'step_arg', 'step_env')}
+            for line in open(os.path.join(bld, 'build.ninja')):
+                if line.startswith('  cmd = '):
+                    m = re.search(r'K\d{6}', line)
+                    if m and m.group(0) in ids:
+                        njtext[m.group(0)] = line[len('  cmd = '):-1]
+            if os.path.exists(nlog):
+                for line in open(nlog):
+                    r = json.loads(line)
+                    if r.get('cmd_binding'):
+                        m = re.search(r'K\d{6}', r['cmd_binding'])
+                        if m and m.group(0) in ids:
+                            njcmd[m.group(0)] = r['cmd_binding']
         srcreal = os.path.realpath(src)
         for s in slots:
             i, w = s.id, s.word
             ev = {'pos': s.pos, 'declared': [syms(w)], 'delivered': [],
-                  'started': False, 'nested': [], 'cmdline': [], 'argv': []}
+                  'started': False, 'nested': [], 'cmdline': [], 'argv': [],
+                  'nj_text': [], 'nj_cmd': []}
+            if i in njtext and i in njcmd:
+                ev['nj_text'] = syms(njtext[i])
+                ev['nj_cmd'] = syms(njcmd[i])
             if s.pos in ('cmd_arg', 'step_arg', 'test_arg'):
                 rs = byid.get(i, [])
                 if rs:
@@ -339,7 +360,8 @@ def run_bisect(slots, backend, ninja=None):
         s = slots[0]
         return {s.id: {'pos': s.pos, 'declared': [syms(s.word)],
                        'delivered': [], 'started': False, 'nested': [],
-                       'cmdline': [], 'argv': [], 'note': res}}
+                       'cmdline': [], 'argv': [], 'nj_text': [],
+                       'nj_cmd': [], 'note': res}}
     h = len(slots) // 2
     out = run_bisect(slots[:h], backend, ninja)
     out.update(run_bisect(slots[h:], backend, ninja))
@@ -364,9 +386,10 @@ def run_all(slots, backend, ninja=None, per_project=250, seed=1):
     events = {}
     for g, r in zip(groups, results):
         events.update(r)
-    # a global slot that failed inside a group is re-run alone, so that a
-    # neighbour's failure is never attributed to it
-    redo = [s for s in glob if not ok_event(events[s.id])]
+    # a slot that failed inside a group is re-run alone, so that a neighbour's
+    # failure (a truncated shared variable, an aborted `&&` chain of tests) is
+    # never attributed to it
+    redo = [s for s in slots if not ok_event(events[s.id])]
     if redo:
         for s, r in zip(redo, pmap(lambda s: run_bisect([s], backend, ninja),
                                    redo)):
@@ -375,5 +398,6 @@ def run_all(slots, backend, ninja=None, per_project=250, seed=1):
 
 
 def ok_event(ev):
-    return ev['started'] and ev['delivered'] == ev['declared'] and \
-        ev['pos'] != 'drv_arg'
+    if ev['pos'] == 'drv_arg':
+        return ev['started']
+    return ev['started'] and ev['delivered'] == ev['declared']
